@@ -11,12 +11,16 @@ SCENARIOS = {"vars": 1, "dict": 1}
 TIERS = {"quick": {"runs": 8000, "chunk": 25}, "thorough": {"runs": 50000000, "wall_s": 600, "chunk": 150, "recheck": 16}}
 RULE = ("'vars': 1-6 hash-map variables with drawn formats (12% with a byte-order prefix) "
         "and defaults, a generated program that keeps live values in up to 2 of r2-r9 and "
-        "has statements a = b / a = b + k / a = register (+ k) / a = temporary (+ k), and a "
+        "has statements a = b / a = b + k / a = register (+ k) / a = temporary (+ k) / wide = "
+        "narrow (the 64-bit cell of a variable only Python writes handed on to a wider one) and "
+        "in 60 % of the runs copies every hash variable into an 8-byte array-map observer at "
+        "its end (what the program reads of Python-written values), and a "
         "history of Python set/get and program runs; "
         "'dict': tape-generated packed Key/Value structures (members of all sizes), a "
         "generated program that fills the key from array-map variables and then updates, or "
         "looks up + modifies a member + marks the Else branch, and a history of inserts, "
-        "lookups, updates, deletes and pops from both sides including absent keys and a full "
+        "lookups ([], get, in), updates, deletes, pops, popitem, clear and key/item iteration "
+        "from both sides including absent keys and a full "
         "map; every observation on either side is compared with a reference dict (64-bit "
         "cells; key bytes -> value bytes by independent struct packing); two-party histories, "
         "no timing dimension; distinct = distinct (declarations, history) digests; "
@@ -63,18 +67,40 @@ def run_vars(tape, env, viol, history, want_c10=False):
         default = draw_in_range(tape, fmt, "c09/default") if tape.chance("c09/has-default", 60) else 0
         ns[f"h{i}"] = hm.globalVar(fmt, default)
         decl.append((f"h{i}", fmt, default))
-    # registers holding live values while hash variables are accessed
+    # observers: what the *program* reads from each hash variable, copied at the end of the
+    # program into an 8-byte array-map variable of the same signedness
+    observe = tape.chance("c09/observe-program-reads", 60)
+    # registers holding live values while hash variables are accessed (r7 belongs to the
+    # array map when there is one)
     regs = []
-    for no in sorted({tape.pick("c09/regno", [2, 3, 4, 5, 6, 7, 8, 9])
+    for no in sorted({tape.pick("c09/regno", [2, 3, 4, 5, 6, 8, 9] if observe
+                                else [2, 3, 4, 5, 6, 7, 8, 9])
                       for _ in range(tape.draw("c09/nregs", 3))}):
         f = tape.pick("c09/regfmt", FMTS)
         regs.append((no, f, draw_in_range(tape, f, "c09/regval") & ((1 << 63) - 1)
                      if f == "Q" else draw_in_range(tape, f, "c09/regval")))
     stmts = []
+    frozen = set()      # variables only Python may write (sources of cell copies)
+    written = set()
     for _ in range(tape.draw("c09/nstmts", 5)):
-        dst = tape.pick("c09/dst", decl)
+        cands = [d for d in decl if d[0] not in frozen]
+        if not cands:
+            break
+        dst = tape.pick("c09/dst", cands)
         kind = tape.draw("c09/stmt-kind", 4)
         k = tape.draw("c09/k", 50) if tape.chance("c09/plus", 50) else None
+        written.add(dst[0])
+        # wide = narrow between hash variables hands the 64-bit cell on as it is: a narrower
+        # variable of the same signedness that only Python writes must arrive unchanged
+        narrower = [d for d in decl if d[0] not in written and len(d[1]) == 1 and len(dst[1]) == 1
+                    and d[1].islower() == dst[1].islower()
+                    and struct.calcsize(d[1]) < struct.calcsize(dst[1])]
+        if narrower and tape.chance("c09/cell-copy", 35):
+            src = tape.pick("c09/cell-src", narrower)
+            frozen.add(src[0])
+            stmts.append(("var", dst, src, None))
+            env.world.count("c09/cell-copied-to-wider-variable")
+            continue
         if kind == 2 and regs:
             stmts.append(("reg", dst, tape.pick("c09/usereg", regs), k))
         elif kind == 3:
@@ -86,9 +112,23 @@ def run_vars(tape, env, viol, history, want_c10=False):
             same = [d for d in decl if d[1] == dst[1]]     # mixed formats are C01's subject
             stmts.append(("var", dst, tape.pick("c09/src", same), k))
 
+    if observe:
+        from ebpfcat.arraymap import ArrayMap
+        amap = ArrayMap()
+        ns["amap"] = amap
+        for n, f, d in decl:
+            ns["o_" + n] = amap.globalVar("q" if f[-1].islower() else "Q")
+
     def program(self):
         for no, f, v in regs:
             (self.sr if f.islower() else self.r)[no] = v
+        body(self)
+        if observe:
+            for n, f, d in decl:
+                setattr(self, "o_" + n, getattr(self, n))
+        self.exit(XDPExitCode.PASS)
+
+    def body(self):
         for kind, dst, src, k in stmts:
             if kind == "var":
                 v = getattr(self, src[0])
@@ -102,8 +142,8 @@ def run_vars(tape, env, viol, history, want_c10=False):
                     setattr(self, t, src)
                     tv = getattr(self, t)
                     setattr(self, dst[0], tv if k is None else tv + k)
-        self.exit(XDPExitCode.PASS)
     ns["program"] = program
+    program_written = {dst[0] for kind, dst, src, k in stmts}
     P = type("P", (XDP,), ns)
     try:
         p = P()
@@ -163,6 +203,22 @@ def run_vars(tape, env, viol, history, want_c10=False):
                 v = model[src[0]] if kind == "var" else src[2] if kind == "reg" else src
                 model[dst[0]] = v if k is None else v + k
             history.append(("run",))
+            if observe:
+                for n, f, d in decl:
+                    bits = 8 * struct.calcsize(f)
+                    lo, hi = (-(1 << (bits - 1)), (1 << (bits - 1)) - 1) if f[-1].islower() \
+                        else (0, (1 << bits) - 1)
+                    if f[0] in ">!" or not lo <= model[n] <= hi or n in program_written:
+                        # big-endian formats: open finding; out of range: not judged; the
+                        # statement is about values written by the *other* side
+                        continue
+                    env.world.count("c09/program-read-of-python-value-checked")
+                    got = getattr(p, "o_" + n)
+                    if got != model[n]:
+                        viol("program-read-differs",
+                             f"after op {step}: the program read {got!r} from {n} ({f}), "
+                             f"model {model[n]!r}", fmt=f)
+                        return decl
         else:
             history.append(("py_get",))
         check(f"after op {step} {history[-1]}")
@@ -262,8 +318,10 @@ def run_dict(tape, env, viol, history):
 
     for step in range(4 + tape.draw("c09/nops", 24)):
         key = tape.pick("c09/key", keypool)
-        op = tape.draw("c09/dop", 7)
+        op = tape.draw("c09/dop", 9)
         where = f"op {step}"
+        if op == 7 and not model:
+            op = 0          # popitem on an empty Dict is not judged (see ASSUMPTIONS)
         if op == 0:        # Python insert/update
             val = tuple(draw_in_range(tape, f, "c09/val") for f in vf)
             try:
@@ -279,10 +337,19 @@ def run_dict(tape, env, viol, history):
             if ok:
                 model[key] = val
             history.append(("py_set", ok))
-        elif op == 1:      # Python lookup
+        elif op == 1:      # Python lookup: table[key], table.get(key), key in table
+            how = tape.draw("c09/lookup-how", 3)
             try:
-                got = p.table[mk(Key, key)]
-                vals = tuple(getattr(got, f"m{i}") for i in range(len(vf)))
+                if how == 2:
+                    present = mk(Key, key) in p.table
+                    if present != (key in model):
+                        viol("python-lookup-differs", f"{where}: key {key} in table is "
+                             f"{present}, model {key in model}", side="python")
+                    history.append(("py_in", present))
+                    continue
+                got = p.table[mk(Key, key)] if how == 0 else p.table.get(mk(Key, key))
+                vals = None if got is None else \
+                    tuple(getattr(got, f"m{i}") for i in range(len(vf)))
             except KeyError:
                 vals = None
             if vals != model.get(key):
@@ -308,13 +375,54 @@ def run_dict(tape, env, viol, history):
                      f"{key in model}")
             model.pop(key, None)
             history.append(("py_del", existed))
-        elif op == 3:      # Python iteration over the keys
+        elif op == 7:      # Python popitem (MutableMapping mixin over __iter__/[]/del)
+            try:
+                k, got = p.table.popitem()
+                kb = bytes(k.data)
+                vals = tuple(getattr(got, f"m{i}") for i in range(len(vf)))
+                mkey = next((m for m in model if kbytes(m) == kb), None)
+                if mkey is None:
+                    viol("python-iteration-differs", f"{where}: popitem returned key "
+                         f"{kb.hex()} which is not in the model")
+                else:
+                    if vals != model[mkey]:
+                        viol("python-lookup-differs", f"{where}: popitem returned {vals} for "
+                             f"{mkey}, model {model[mkey]}", side="python")
+                    del model[mkey]
+            except (Exception, SimStall) as e:
+                viol("python-iteration-failed", f"{where}: popitem: {type(e).__name__}: {e}")
+            history.append(("py_popitem",))
+        elif op == 8:      # Python clear (ends by finding the Dict empty: how that is
+            try:           # signalled is tolerated, what is left afterwards is judged)
+                p.table.clear()
+            except (KeyError, RuntimeError, StopIteration):
+                pass
+            except (Exception, SimStall) as e:
+                viol("python-iteration-failed", f"{where}: clear: {type(e).__name__}: {e}")
+            model.clear()
+            for kk in keypool:
+                try:
+                    p.table[mk(Key, kk)]
+                    viol("python-delete-differs", f"{where}: key {kk} is still there after "
+                         f"clear()")
+                except KeyError:
+                    pass
+            history.append(("py_clear",))
+        elif op == 3:      # Python iteration over the keys (or the items)
             if model:
                 try:
                     keys = set()
-                    for n_seen, k in enumerate(p.table):
+                    items = tape.chance("c09/iterate-items", 40)
+                    for n_seen, k in enumerate(p.table.items() if items else p.table):
                         if n_seen > 4 * size + 8:
                             raise RuntimeError("iteration over the Dict does not end")
+                        if items:
+                            k, got = k
+                            mkey = next((m for m in model if kbytes(m) == bytes(k.data)), None)
+                            vals = tuple(getattr(got, f"m{i}") for i in range(len(vf)))
+                            if mkey is not None and vals != model[mkey]:
+                                viol("python-lookup-differs", f"{where}: items() gives {vals} "
+                                     f"for {mkey}, model {model[mkey]}", side="python")
                         keys.add(bytes(k.data))
                 except (Exception, SimStall) as e:
                     viol("python-iteration-failed", f"{where}: {type(e).__name__}: {e}")
